@@ -32,7 +32,7 @@ type (
 		Fn   string
 		Args []SExpr
 	}
-	SIndex struct{ X, I SExpr }
+	SIndex  struct{ X, I SExpr }
 	SSlice3 struct {
 		X      SExpr
 		Lo, Hi SExpr // may be nil
@@ -464,52 +464,52 @@ type Clause struct {
 }
 
 type LoopContract struct {
-	Ordinal    int
-	Invariants []*Clause
-	Decreases  *Clause
-	NoAuto     bool
+	Ordinal     int
+	Invariants  []*Clause
+	Decreases   *Clause
+	NoAuto      bool
 	Modifies    []string // loop-level frame: locations the loop may write, relative to the state at loop entry
 	ModifiesSet bool
 }
 
 type Contract struct {
-	FuncKey    string // e.g. "(*seq).Reverse" or "Reverse" or "DistMatrix$2"
-	Pkg        string
-	Props      []string
-	Requires   []*Clause
-	Ensures    []*Clause
-	Modifies   []string // raw location specs; nil = nothing
+	FuncKey     string // e.g. "(*seq).Reverse" or "Reverse" or "DistMatrix$2"
+	Pkg         string
+	Props       []string
+	Requires    []*Clause
+	Ensures     []*Clause
+	Modifies    []string // raw location specs; nil = nothing
 	ModifiesSet bool
-	Loops      map[int]*LoopContract
-	Inline     bool
-	Trusted    bool   // assumed contract (body not verified)
-	TrustWhy   string
-	Arith      string // "" (math) or "wrap64"
-	Float      string // "" (exact reals) or "xreal" (extended reals with NaN/Inf)
-	Asserts    []*Clause // assert_at
-	ChanInvs   []*Clause // chaninv <elem type> : P(elem)   assumed at every receive, proved at every send of a channel of that element type
-	Hints      []*Clause // proved at every return with the locals in scope, then assumed for the postconditions (not visible to callers)
-	Covers     []*Clause
-	Line       int
-	File       string
-	Notes      []string
-	MayPanic   bool // explicit panics allowed (documented behaviour)
-	NoTerm     bool
-	Params     []string // for extern contracts: parameter names
-	AllowExit  bool
-	MakeLimit  bool // opt-in: every make([]T, n) must also prove n*sizeof(T) <= 2^48 (runtime allocation limit)
+	Loops       map[int]*LoopContract
+	Inline      bool
+	Trusted     bool // assumed contract (body not verified)
+	TrustWhy    string
+	Arith       string    // "" (math) or "wrap64"
+	Float       string    // "" (exact reals) or "xreal" (extended reals with NaN/Inf)
+	Asserts     []*Clause // assert_at
+	ChanInvs    []*Clause // chaninv <elem type> : P(elem)   assumed at every receive, proved at every send of a channel of that element type
+	Hints       []*Clause // proved at every return with the locals in scope, then assumed for the postconditions (not visible to callers)
+	Covers      []*Clause
+	Line        int
+	File        string
+	Notes       []string
+	MayPanic    bool // explicit panics allowed (documented behaviour)
+	NoTerm      bool
+	Params      []string // for extern contracts: parameter names
+	AllowExit   bool
+	MakeLimit   bool // opt-in: every make([]T, n) must also prove n*sizeof(T) <= 2^48 (runtime allocation limit)
 }
 
 type PureFunc struct {
-	Name    string
-	Params  []SVarDecl // Type is Go-ish type text: int, real, bool, []uint8, []int, []float64, string, *align, ...
-	Ret     string
-	Body    SExpr // nil: uninterpreted
-	Text    string
-	Pkg     string
+	Name      string
+	Params    []SVarDecl // Type is Go-ish type text: int, real, bool, []uint8, []int, []float64, string, *align, ...
+	Ret       string
+	Body      SExpr // nil: uninterpreted
+	Text      string
+	Pkg       string
 	Recursive bool
-	Opaque  bool // kept as a function symbol with a pattern-guarded definitional axiom (gives quantifier triggers)
-	Line    int
+	Opaque    bool // kept as a function symbol with a pattern-guarded definitional axiom (gives quantifier triggers)
+	Line      int
 }
 
 type Axiom struct {
